@@ -139,3 +139,4 @@ package cashu
 //@ func AmountSplit
 //@   tags C18 C14
 //@   safety C06 C18
+//@   loop 1 invariant pos >= 0
